@@ -1,5 +1,6 @@
 """Program model over the extractor's JSON: units, functions, CFGs,
 expression helpers, access paths, call graph and mod-sets (engine E6)."""
+import os
 from .facts import AnalysisBroken
 
 CASTS = ("ICast", "Cast")
@@ -538,7 +539,10 @@ class Func:
                     return n
                 k = n.get("k")
                 if k == "Decl":
-                    return n
+                    m = dict(n)
+                    m["decls"] = [d if d["ref"]["id"] == pid or d.get("init") is None else dict(d, init=rewrite(d["init"]))
+                                  for d in n["decls"]]
+                    return m
                 if k == "Bin" and n.get("op") == "=" and sk(n["a"][0]).get("k") == "Ref" and sk(n["a"][0])["ref"]["id"] == pid:
                     return n                # the definition itself
                 if k == "Mem" and n.get("arrow") and sk(n["a"][0]).get("k") == "Ref" and sk(n["a"][0])["ref"]["id"] == pid:
@@ -698,7 +702,16 @@ class Unit:
                 if not (nm in self.globals and self.globals[nm].get("init") is not None):
                     self.globals[nm] = g
         self.funcs = {}
+        self.inlined = set()
+        if not os.environ.get("IODINE_NO_INLINE"):
+            try:
+                from . import inline
+                self.inlined = inline.inline_unit(j["functions"])
+            except Exception:
+                self.inlined = set()
         for fj in j["functions"]:
+            if fj["name"] in self.inlined:
+                continue
             self.funcs[fj["name"]] = Func(fj, self)
         self.protos = {p["name"]: p for p in j.get("protos", ())}
 
